@@ -75,9 +75,15 @@ def _site(prog, rep, q, container, stacked_kind):
     if len(loops) != 1:
         raise AnalysisError(f"{q}: expected exactly one loop storing into {container}.slices, found {len(loops)}")
     lp = loops[0]
-    if not isinstance(lp.target, ast.Name):
+    key_var = None
+    if isinstance(lp.target, ast.Tuple) and len(lp.target.elts) == 2 and all(isinstance(e, ast.Name) for e in lp.target.elts) \
+            and isinstance(lp.iter, ast.Call) and isinstance(lp.iter.func, ast.Attribute) and lp.iter.func.attr == "items" and not lp.iter.args:
+        # for name, term in self.terms.items(): the dict is keyed by term.name (R17.2 checks the constructor)
+        key_var, tv = lp.target.elts[0].id, lp.target.elts[1].id
+    elif isinstance(lp.target, ast.Name):
+        tv = lp.target.id
+    else:
         raise AnalysisError(f"{q}: the slice loop does not iterate over single terms (`for {unparse(lp.target)} in ...`)")
-    tv = lp.target.id
     # state before the loop
     pre = SX.SymExec()
     for st in body[:body.index(lp)]:
@@ -87,10 +93,18 @@ def _site(prog, rep, q, container, stacked_kind):
             for n in ast.walk(st):
                 if isinstance(n, ast.Name) and isinstance(n.ctx, ast.Store):
                     pre.env[n.id] = SX.Opaque(f"<{n.id} after {type(st).__name__}>")
-    it = pre.text(lp.iter)
-    carried = {n.id for n in ast.walk(lp) if isinstance(n, ast.Name) and isinstance(n.ctx, ast.Store)} - {tv}
+    def coll(e):
+        """the collection an iteration ranges over: X.values() / X.items() -> X (same order)"""
+        if isinstance(e, ast.Call) and isinstance(e.func, ast.Attribute) and e.func.attr in ("values", "items") and not e.args:
+            return pre.text(e.func.value) + " (dict order)"
+        return pre.text(e)
+
+    it = coll(lp.iter)
+    carried = {n.id for n in ast.walk(lp) if isinstance(n, ast.Name) and isinstance(n.ctx, ast.Store)} - {tv, key_var}
     env_in = dict(pre.env)
     env_in.pop(tv, None)
+    if key_var:
+        env_in[key_var] = SX.Opaque(f"{tv}.name")
     for v in carried:
         env_in[v] = SX.atom(f"{v}@in")
     # `if c: ...; continue` + rest  ==  `if c: ... else: rest`: bring the body into if/else form first
@@ -148,7 +162,7 @@ def _site(prog, rep, q, container, stacked_kind):
             arg = d[0].value
     if isinstance(arg, ast.ListComp) and len(arg.generators) == 1 and not arg.generators[0].ifs and isinstance(arg.generators[0].target, ast.Name):
         g = arg.generators[0]
-        ok = pre.text(g.iter) == it
+        ok = coll(g.iter) == it
         import copy as _copy
         elt = _copy.deepcopy(arg.elt)
         for n in ast.walk(elt):
